@@ -123,6 +123,12 @@ fn strategy(ctx: &Ctx) -> BoxedStrategy<Case> {
                 5 => minr % (avg + 1),
                 _ => [0, 1, 63][(minr % 3) as usize].min(avg),
             };
+            // keep refused parameter sets (min below the 64-byte window) to a small share
+            let min = if min < 64 && avg >= 64 && minr % 8 != 0 {
+                64 + minr % (avg - 63)
+            } else {
+                min
+            };
             let max = match maxk {
                 0 => avg,
                 1 => avg + 1,
